@@ -26,6 +26,10 @@ The copy discipline is mirrored as the code performs it (`copyT` driven by the t
     every depth (bounds, interior rings and every construct of a field lose their data too).
 Mutators are lists of writes at *typed paths* from the receiver (`Write`); the in-place
 decorator (`_inplace_enabled`) runs them on `self` or on `self.copy()`.
+
+Companions: `Model/HeapSites.lean` (the in-place mutation sites that a translator extracts from the
+sources of cfdm on every run, typed as write paths, with a decidable liveness check) and
+`Model/HeapViews.lean` (views of a constructs collection, `Field.domain`, `shallow_copy`).
 -/
 namespace Cfdm.Heap
 
@@ -285,9 +289,13 @@ inductive Step
   | cattr (key : String)    -- an attribute of a Constructs collection
   | item (key : String)     -- an entry of a plain dict / list
   | raw (key : String)      -- any entry of any cell (used only by the defective variants below)
+  | fattr (f : Fam)                  -- the `_components` attribute of an instance of exactly that family
+  | fcomp (f : Fam) (key : String)   -- an entry of the `_components` dict of an instance of that family
+  | oattr (f : Fam) (key : String)   -- any instance attribute of an object of that family
 
 def Step.key : Step → String
   | .attr => "_components" | .comp k => k | .cattr k => k | .item k => k | .raw k => k
+  | .fattr _ => "_components" | .fcomp _ k => k | .oattr _ k => k
 
 def Step.ok : Step → Kind → Bool
   | .attr, .obj f _ => f.isContainer
@@ -296,6 +304,9 @@ def Step.ok : Step → Kind → Bool
   | .item _, .dict => true
   | .item _, .list => true
   | .raw _, _ => true
+  | .fattr f, .obj g _ => f == g
+  | .fcomp f _, .comps g => f == g
+  | .oattr f _, .obj g _ => f == g
   | _, _ => false
 
 def resolve : T → List Step → Option T
@@ -422,10 +433,34 @@ inductive TableWrite : Write → Prop
   | delConstructMeta (a k) (h : a ∈ ["_construct_type", "_construct_axes", "_key_base"]) :
       TableWrite ⟨comps [.comp "constructs", .cattr a], .delKey k, .placeholder⟩
   | custom (k v) : TableWrite ⟨comps [.comp "custom"], .setKey k v, .placeholder⟩
+  | delCustom (k) : TableWrite ⟨comps [.comp "custom"], .delKey k, .placeholder⟩
+  | delNcAttr (w p) : TableWrite ⟨comps [.comp "netcdf", .item w], .delKey p, .placeholder⟩
+  | boundsComponent (c v) : TableWrite ⟨comps [.comp "bounds", .attr], .setKey c v, .placeholder⟩
+  | ringComponent (c v) : TableWrite ⟨comps [.comp "interior_ring", .attr], .setKey c v, .placeholder⟩
   | inConstruct (t k w) (h : TableWrite w) :
       TableWrite { w with path := comps [.comp "constructs", .cattr "_constructs", .item t, .item k] ++ w.path }
 
+/-- `x[indices]` of a construct (`PropertiesDataBounds.__getitem__`): `new = self.copy()`, then the subspaced
+data replace the data of `new`, of its bounds and of its interior ring (`set_data(…, copy=False)`); the
+subspaced arrays are new objects (`Data.__getitem__`: `self.array[indices]` is an index into a fresh copy) -/
+def mGetitem (newData : T) (newBoundsData newRingData : Option T) : List Write :=
+  mSetComponent "data" newData ++
+  (match newBoundsData with
+   | some b => [⟨comps [.comp "bounds", .attr], .setKey "data" b, .placeholder⟩]
+   | none => []) ++
+  (match newRingData with
+   | some r => [⟨comps [.comp "interior_ring", .attr], .setKey "data" r, .placeholder⟩]
+   | none => [])
+
+def getitemT (tbl : Tbl) (newData : T) (newBoundsData newRingData : Option T) (x : T) (n : Nat) : T × T × Nat :=
+  inplaceOff tbl (mGetitem newData newBoundsData newRingData) x n
+
 /-! ### defective variants kept for the counter-examples -/
+/-- a `Field.set_data(data, axes=…, inplace=False)` that would record the axes on the receiver before it
+makes the working copy (and then possibly raise while checking the data against them) -/
+def mSetDataAxesViaSelf (axes v : T) : List Write :=
+  [⟨[.attr], .setKey "data_axes" axes, .self⟩] ++ mSetComponent "data" v
+
 /-- `Field.apply_masking` before ebd1f5d: the data are masked on the working copy `d`, the metadata
 constructs through `self` -/
 def mApplyMaskingOld (ctype key : String) (newFieldArray newConstructArray : T) : List Write :=
